@@ -319,6 +319,30 @@ func cmdCheck(args []string) int {
 		}
 	}
 
+	// stragglers: an obligation that is still undecided (no model) is posed once more at the end, alone on the
+	// machine (everything else has finished), before it may become an alarm
+	{
+		kept := failures[:0]
+		tried := 0
+		for _, f := range failures {
+			if f.or != nil && f.vc != nil && f.or.Status != "sat" && f.or.Status != "unsat" && tried < 12 && os.Getenv("GOVC_NORETRY") == "" {
+				tried++
+				cfgL := cfg
+				cfgL.TimeoutMS = 3 * cfg.TimeoutMS
+				r := raceSingleOpt(f.vc, f.or.Ob, cfgL, fileBaseFor(f.or.Ob.Name)+".last", strings.Contains(f.or.script, "(forall "))
+				if r.Status == "unsat" {
+					nDis++
+					byBackend[r.Solver]++
+					solverSecs[r.Solver] += r.Seconds
+					fmt.Fprintf(os.Stderr, "straggler discharged at the end: %s [%s %.1fs]\n", f.or.Ob.Name, r.Solver, r.Seconds)
+					continue
+				}
+			}
+			kept = append(kept, f)
+		}
+		failures = kept
+	}
+
 	// report failures
 	for _, f := range failures {
 		switch {
